@@ -44,8 +44,15 @@ class ProcedureBank(object):
         dependencies.
         """
         resource_file = pkg_resources.files(resources) / resource_name
+        str_storage_text: str = ": STRING" + (
+            ""
+            if self._default_str_storage == b09.DEFAULT_STR_STORAGE
+            else f"[{self._default_str_storage}]"
+        )
         with resource_file.open("r") as f:
-            return self.add_from_str(f.read())
+            return self.add_from_str(
+                re.sub(STR_STORAGE_TAG, str_storage_text, f.read())
+            )
 
     def add_from_str(self, procedures: str) -> None:
         """
@@ -80,13 +87,7 @@ class ProcedureBank(object):
             for dependency in dependency_list
             if dependency in self._name_to_procedure
         ]
-        raw_text: str = "\n".join(output_array)
-        str_storage_text: str = ": STRING" + (
-            ""
-            if self._default_str_storage == b09.DEFAULT_STR_STORAGE
-            else f"[{self._default_str_storage}]"
-        )
-        return re.sub(STR_STORAGE_TAG, str_storage_text, raw_text)
+        return "\n".join(output_array)
 
     def _get_procedure_and_dependency_names(self, procedure_name):
         """
